@@ -465,7 +465,10 @@ func (c *conn) Flush() error {
 	// if there is still pending data after flushing, otherwise the data that was
 	// put into the outbound buffer directly by ReadFrom would never be sent.
 	if !c.loop.engine.opts.EdgeTriggeredIO && c.opened && !c.outboundBuffer.IsEmpty() {
-		return c.loop.poller.ModReadWrite(&c.pollAttachment, false)
+		if err := c.loop.poller.ModReadWrite(&c.pollAttachment, false); err != nil {
+			_ = c.loop.close(c, err)
+			return err
+		}
 	}
 	return nil
 }
